@@ -13,7 +13,7 @@ RULE = ('trees parse(src) of G1 programs (all node kinds; optional parts present
         'per-node metadata - positions, literal-token table, sourcepath, attached comments - excluded) must be '
         'exactly what Walker().walk yields, each once (by identity), each after its parent and before its own '
         'descendants (pre-order: a node\'s descendants are contiguous after it), identically on repeated walks and '
-        'from a fresh Walker and when a condition is passed to walk (documented as ignored), also when two traversals of one Walker object are interleaved or nested; filter(tree, c) == [n for n in walk(tree) if c(n)] for generated predicates; '
+        'from a fresh Walker, through the module-level walk() and when a condition is passed to walk (documented as ignored), also when two traversals of one Walker object are interleaved or nested; filter(tree, c) == [n for n in walk(tree) if c(n)] for generated predicates; '
         'extract(tree, c, skip=k) returns the k-th match or raises TypeError exactly when there is none. '
         'non-trivial = tree with >= 10 nodes and >= 5 kinds; distinct by source text')
 ASSUMPTIONS = ['attached Comments nodes are metadata (children() is about syntactic sub-nodes); their reachability is '
@@ -111,6 +111,11 @@ def check_tree(acc, opens, src, tree, preds):
     fresh = [id(n) for n in Walker().walk(tree)]
     if again != ids or fresh != ids:
         acc.fail(None, case, {'bucket': 'order_not_repeatable'}, opens)
+        return walked
+    # the module-level convenience function walks the same way
+    from calmjs.parse import walkers as wmod
+    if [id(n) for n in wmod.walk(tree)] != ids:
+        acc.fail(None, case, {'bucket': 'module_level_walk_differs'}, opens)
         return walked
     # two traversals of one Walker object alive at the same time must not disturb each other
     inter = []
